@@ -141,11 +141,30 @@ func (fx *fctx) callExternal(st *State, fn *types.Func, recv *Value, recvExpr as
 			e.Assumptions["regexp.FindStringSubmatchIndex: nil, or 2k indices (k >= 1), each pair (-1,-1) or 0 <= s <= e <= len(input)"] = true
 		}
 		return r
+	case "math.Pow", "math.Floor", "math.Ceil", "math.Round", "math.Abs", "math.Trunc", "math.Sqrt", "math.Mod", "math.Max", "math.Min":
+		// pure functions of their arguments: the same arguments give the same result (uninterpreted)
+		var ts2 []*Term
+		for _, a := range args {
+			if a == nil || a.Tm == nil {
+				return results()
+			}
+			ts2 = append(ts2, a.Tm)
+		}
+		return []*Value{{T: sig.Results().At(0).Type(), Tm: ts.App("fn_"+strings.ReplaceAll(name, ".", "_"), SFlt, ts2...)}}
 	case "strings.Split":
 		r := results()
 		if len(r) == 1 && r[0].Sl != nil {
 			st.assume(ts.Ge(r[0].Sl.Len, ts.Int(1)))
 			e.Assumptions["strings.Split with a non-empty separator returns at least one element"] = true
+			// Split(s, "\n"): the k-th element is line k of s, and there are as many elements as lines
+			if tv, ok := e.P.Info.Types[ce.Args[1]]; ok && tv.Value != nil && constantString(tv.Value) == "\n" && args[0].Tm != nil {
+				st.assume(ts.Eq(r[0].Sl.Len, ts.App("str_linecount", SInt, args[0].Tm)))
+				h := e.heapGet(st, e.elemKey(types.Typ[types.String]), ArrSort(SStr))
+				k := ts.BoundVar("ln", SInt)
+				st.assume(ts.Forall([]*Term{k}, ts.Implies(ts.And(ts.Le(ts.Int(0), k), ts.Lt(k, r[0].Sl.Len)),
+					ts.Eq(ts.Select(h, ts.Add(r[0].Sl.Ptr, k)), ts.App("str_line", SStr, args[0].Tm, k)))))
+				e.Assumptions["strings.Split(s, \"\\n\") returns the lines of s in order (str_line / str_linecount are its definition)"] = true
+			}
 		}
 		return r
 	case "strconv.FormatInt", "strconv.Itoa":
